@@ -718,7 +718,7 @@ fn emit_case(em: &mut Emitter, id: String, case: Case, origin: &'static str) {
         input: serde_json::to_value(&case).unwrap(),
         coq_case: Some(format!("({}, {})", coq_bool(case.eof), coq_list(&case.ops, coq_op))),
         expect,
-        sig: show.clone(),
+        sig: show.chars().take(240).collect(),
         impl_show: show,
         oracle_ok: ok,
         oracle_why: why,
